@@ -1,4 +1,4 @@
 From Coq Require Extraction ExtrOcamlBasic.
-From GV Require Import Base.Utf8 Front.Lexer.
+From GV Require Import Base.Utf8N Front.Lexer.
 Extraction Language OCaml.
-Extraction "model.ml" lex utf8_valid is_char_boundary.
+Extraction "model.ml" lex unescape utf8_valid is_char_boundary.
